@@ -106,6 +106,9 @@ func (k *Kernel) initSlow() {
 			k.logSched("lazy-clock", "")
 		}
 	}
+	if k.LazyClock {
+		k.Probe("sched-lazy-clock-runs")
+	}
 	switch k.tape.DrawSched(4) {
 	case 2:
 		k.slowDiv = 8
@@ -121,6 +124,7 @@ func (k *Kernel) initSlow() {
 		k.slowSel = c - len(slowClasses)
 	}
 	k.logSched("slow", fmt.Sprintf("%s/%d 1/%d", k.slowPrefix, k.slowSel, k.slowDiv))
+	k.Probe("sched-starved-class-runs")
 }
 
 // SetSlow fixes the starvation bias for this run (planned cases).
@@ -132,6 +136,10 @@ func (k *Kernel) SetSlow(prefix string, div int) {
 		k.LazyClock, k.lazySet = k.tape.DrawSched(4) == 0, true
 	}
 	k.slowInit, k.slowPrefix, k.slowSel, k.slowDiv = true, prefix, -1, div
+	k.Probe("sched-starved-class-runs")
+	if k.LazyClock {
+		k.Probe("sched-lazy-clock-runs")
+	}
 	if strings.HasPrefix(prefix, "~") {
 		// "~n": a pseudo-random fifth of the actors (every WARC write is an actor of its own, so this delays some writes and not others)
 		k.slowPrefix = ""
